@@ -35,7 +35,7 @@
 
    Nothing here uses a property of the comparison or of IEEE arithmetic: the NumOps statements are closed
    under the global context; the PrimFloat statements mention the primitive float operations (Print
-   Assumptions lists primitives, no axiom of Coq.Floats.FloatAxioms is used); the R statements use the
+   Assumptions lists the primitives; no specification lemma of Coq.Floats is used); the R statements use the
    standard reals axioms. *)
 From Coq Require Import Reals List Arith ZArith PrimFloat.
 From OPF Require Import Base.Lists Base.NumOps Model.Heap Model.Knn Model.Pdf Model.KnnFit Model.KnnPredict
